@@ -235,11 +235,45 @@ def mem_order(b, sig_calls):
     return out
 
 
+def log_region(b):
+    """blocks that only run when a log level is enabled: the `log` macros expand to `if lvl <= STATIC_MAX_LEVEL && lvl <= log::max_level()
+    { ..evaluate the arguments, call the logger.. }`; everything dominated by the enabled side of the test that follows the `max_level()`
+    call is argument evaluation for a log line (by convention free of effects) and is not part of the fingerprint"""
+    out = set()
+    for c in b.calls:
+        if not re.search(r"(^|::)log::max_level$", c.callee):
+            continue
+        x = c.target
+        for _ in range(4):
+            if x is None or x >= len(b.blocks):
+                break
+            t = b.blocks[x]["t"]
+            if t.get("k") == "switch":
+                en = t.get("else")
+                if en is not None:
+                    out |= {y for y in range(len(b.blocks)) if b.dominates(en, y)}
+                break
+            x = t.get("t")
+    return out
+
+
 def fingerprint(root, bodies, S=None):
+    K.CANON_TRY = True
+    try:
+        return _fingerprint(root, bodies, S)
+    finally:
+        K.CANON_TRY = False
+
+
+def _fingerprint(root, bodies, S=None):
     dec = Counter()
     calls = Counter()
     for b in bodies:
-        sig_calls = [(c, significant(c)) for c in b.calls if significant(c)]
+        try:
+            logb = log_region(b)
+        except Exception:
+            logb = set()
+        sig_calls = [(c, significant(c)) for c in b.calls if c.bb not in logb and significant(c)]
         sig_by_bb = {c.bb: n for c, n in sig_calls}
         try:
             for k, n in mem_order(b, sig_calls).items():
@@ -250,6 +284,8 @@ def fingerprint(root, bodies, S=None):
             seen_sites = set()
             for h, site in K.decision_sites(b, ignore=IGNORE, matches=True):
                 if not h[3] or not h[4]:
+                    continue
+                if site.bb in logb:
                     continue
                 hc = canon(h)
                 # effects that depend on the decision: significant callees reachable only from one side
@@ -286,7 +322,9 @@ def fingerprint(root, bodies, S=None):
         for c, s in sig_calls:
             calls[call_entry(b, c, S)] += 1
         # values of workspace types built here: struct / enum literals with the forms of their fields (MIR lists fields in declaration order)
-        for blk in b.blocks:
+        for bi, blk in enumerate(b.blocks):
+            if bi in logb:
+                continue
             for st in blk["s"]:
                 rv = st[1]
                 if rv.get("k") == "agg" and rv.get("ak") == "adt" and str(rv.get("adt", "")).startswith("ckb_") and rv.get("ops"):
